@@ -817,11 +817,37 @@ pub fn replace(input_string_value: &Value, pattern_string_value: &Value, replace
     if let Value::String(pattern_string) = pattern_string_value {
       if let Value::String(replacement_string) = replacement_string_value {
         // Rust implementation is eager when parsing matching groups, so place numbers in square brackets
-        let repl = if let Ok(rg) = Regex::new("\\$([1-9][0-9]*)") {
-          rg.replace_all(replacement_string.as_str(), "$${${1}}").to_string()
+        // `\$` and `\\` in the replacement stand for a literal dollar sign and a literal backslash,
+        // unless the pattern and the replacement are taken literally (flag `q`)
+        let literally = if let Value::String(flags_string) = flags_string_value {
+          flags_string.contains('q') && !flags_string.chars().any(|ch| matches!(ch, 's' | 'm' | 'x'))
         } else {
-          replacement_string.clone()
+          false
         };
+        let mut repl = String::new();
+        let mut chars = replacement_string.chars().peekable();
+        while let Some(ch) = chars.next() {
+          match ch {
+            '\\' if literally => repl.push('\\'),
+            '\\' if matches!(chars.peek(), Some('$')) => {
+              chars.next();
+              repl.push_str("$$");
+            }
+            '\\' if matches!(chars.peek(), Some('\\')) => {
+              chars.next();
+              repl.push('\\');
+            }
+            '$' if matches!(chars.peek(), Some('1'..='9')) => {
+              repl.push_str("${");
+              while let Some(digit) = chars.peek().filter(|c| c.is_ascii_digit()).copied() {
+                repl.push(digit);
+                chars.next();
+              }
+              repl.push('}');
+            }
+            other => repl.push(other),
+          }
+        }
         // check and use flags
         if let Value::String(flags_string) = flags_string_value {
           let mut flags = "".to_string();
